@@ -193,104 +193,6 @@ End DesBounds.
 (* deserialization never writes to the buffer *)
 Definition not_write (a : acc) : bool := negb (is_write a).
 
-(* =====================================================  C++ vector  ===================================================== *)
-Theorem vla_replaced {A} (current decoded : list A) : cpp_vla_des true current decoded = decoded.
-Proof. reflexivity. Qed.
-
-Theorem vla_append_refuted : exists current decoded : list nat, cpp_vla_des false current decoded <> decoded.
-Proof. exists [1; 2; 3], [9; 8]. cbv. discriminate. Qed.
-
-(* =====================================================  C++14 union emulation  ===================================================== *)
-(* invariant: exactly the tagged alternative is live, and no destructor ran on a dead one (after construction) *)
-Definition one_live (c : ucell) : Prop := ulive c = [utag c].
-
-Lemma destroy_from_skip np all : forall i c, (forall j, utag c <> i + j \/ nth j np false = false) ->
-  destroy_from true np all i c = c.
-Proof.
-  induction np as [|b r IH]; intros i c H; cbn [destroy_from]; [reflexivity|].
-  assert (E : b && (utag c =? destroy_idx true all i) = false).
-  { unfold destroy_idx. destruct (H 0) as [H0|H0]; cbn [nth] in H0.
-    - replace (utag c =? i) with false by (symmetry; apply Nat.eqb_neq; lia). apply Bool.andb_false_r.
-    - subst b. reflexivity. }
-  rewrite E. apply IH. intros j. destruct (H (S j)) as [H1|H1]; [left; lia | right; exact H1].
-Qed.
-
-(* destroy_current on a cell whose only live alternative is the tagged one: it is destroyed iff it has a destructor *)
-Lemma destroy_from_one np all : forall i c, one_live c -> i <= utag c ->
-  destroy_from true np all i c =
-    if nth (utag c - i) np false then {| utag := utag c; ulive := []; ubad := ubad c |} else c.
-Proof.
-  induction np as [|b r IH]; intros i c Hl Hi; cbn [destroy_from].
-  - destruct (utag c - i); reflexivity.
-  - unfold destroy_idx. destruct (Nat.eq_dec (utag c) i) as [E|E].
-    + rewrite E, Nat.eqb_refl, Nat.sub_diag. cbn [nth]. rewrite Bool.andb_true_r. destruct b.
-      * unfold one_live in Hl. rewrite Hl. cbn [existsb]. rewrite E, Nat.eqb_refl. cbn [orb remove_one].
-        rewrite Nat.eqb_refl. rewrite destroy_from_skip; [reflexivity|]. intros j. left. cbn [utag]. lia.
-      * rewrite destroy_from_skip; [reflexivity|]. intros j. left. lia.
-    + replace (utag c =? i) with false by (symmetry; apply Nat.eqb_neq; exact E). rewrite Bool.andb_false_r.
-      rewrite IH by (try assumption; lia). replace (utag c - i) with (S (utag c - S i)) by lia. reflexivity.
-Qed.
-
-Lemma emplace_one np i c : one_live c -> one_live (emplace true true np i c) /\ ubad (emplace true true np i c) = ubad c.
-Proof.
-  intros Hl. unfold emplace, destroy_current. rewrite destroy_from_one by (try assumption; lia). rewrite Nat.sub_0_r.
-  destruct (nth (utag c) np false) eqn:E; unfold one_live, construct; cbn [utag ulive ubad filter]; [split; reflexivity|].
-  unfold one_live in Hl. rewrite Hl. cbn [filter]. rewrite E. split; reflexivity.
-Qed.
-
-Lemma destroy_from_nolive u np all : forall i c, ulive c = [] -> ulive (destroy_from u np all i c) = [].
-Proof.
-  induction np as [|b r IH]; intros i c H; cbn [destroy_from]; [exact H|].
-  apply IH. destruct (b && _); [|exact H]. rewrite H. cbn [existsb ulive]. reflexivity.
-Qed.
-
-Lemma ctor_one np : one_live (ctor true true np).
-Proof.
-  unfold ctor, emplace, destroy_current, construct, one_live. cbn [utag ulive ubad].
-  rewrite destroy_from_nolive by reflexivity. reflexivity.
-Qed.
-
-(* after the constructor and ANY sequence of set_x / decode / assignment operations exactly the tagged alternative is live and
-   no further destructor call hit a dead alternative *)
-Theorem variant_exactly_one_live np ops :
-  let c0 := ctor true true np in
-  let c := run_ops true true np ops c0 in
-  one_live c /\ ubad c = ubad c0.
-Proof.
-  cbn zeta. pose proof (ctor_one np) as H0. revert H0. generalize (ctor true true np) as c0.
-  induction ops as [|i r IH]; intros c0 H0; cbn [run_ops]; [split; [exact H0 | reflexivity]|].
-  destruct (emplace_one np i c0 H0) as [H1 H2]. destruct (IH _ H1) as [H3 H4]. split; [exact H3 | congruence].
-Qed.
-
-(* ... and the destructor then leaves nothing behind (no leak), for every history *)
-Theorem variant_dtor_clean np ops :
-  let c := dtor true np (run_ops true true np ops (ctor true true np)) in
-  ulive c = filter (fun j => negb (nth j np false)) [utag c].
-Proof.
-  cbn zeta. destruct (variant_exactly_one_live np ops) as [Hl _]. cbn zeta in Hl.
-  unfold dtor, destroy_current. rewrite destroy_from_one by (try assumption; lia). rewrite Nat.sub_0_r.
-  destruct (nth (utag _) np false) eqn:E; cbn [utag ulive filter]; [rewrite E; reflexivity|].
-  rewrite E. cbn [negb]. exact Hl.
-Qed.
-
-(* the pre-fix template (filtered loop, renumbered index): union { uint8 a; Inner v }: set_v on a fresh object runs ~Inner on
-   storage that holds no Inner (F-CPP-UNION14, fixed in d43de40) *)
-Theorem variant_filtered_refuted :
-  exists np ops, let c := run_ops false true np ops (ctor false true np) in ubad c <> 0 \/ ~ one_live c.
-Proof. exists [false; true], [1]. vm_compute. left. discriminate. Qed.
-
-(* the constructor itself calls destroy_current() through emplace<0>() on storage in which no object lives yet: with a
-   non-primitive first alternative that is a destructor call on zero bytes (documented in design_notes/C04.md; benign for the
-   standard containers, invisible to the sanitizers) *)
-Theorem variant_ctor_destroys_dead_refuted : exists np, ubad (ctor true true np) <> 0.
-Proof. exists [true]. vm_compute. discriminate. Qed.
-
-Theorem variant_ctor_partial np : nth 0 np false = false -> ubad (ctor true true np) = 0.
-Proof.
-  intros H. unfold ctor, emplace, destroy_current. cbn [ubad construct].
-  rewrite destroy_from_skip; [reflexivity|]. intros j. cbn [utag]. destruct j; [right; exact H | left; lia].
-Qed.
-
 (* =====================================================  serialization: refusal writes nothing  ===================================================== *)
 (* the up-front capacity test precedes everything: a serialization refused for lack of space has an empty access log *)
 Theorem too_small_no_write c t o capB :
@@ -298,37 +200,6 @@ Theorem too_small_no_write c t o capB :
 Proof.
   intros Hu Hlt. unfold walk_ser_safe. rewrite Hu. cbn [andb].
   replace (8 * capB <? bmax t) with true by (symmetry; apply Nat.ltb_lt; exact Hlt). reflexivity.
-Qed.
-
-(* with the check compiled out (capacity override in effect) the first aligned store is unchecked *)
-Theorem too_small_writes_without_check_refuted :
-  exists c t o capB, up_front c = false /\ 8 * capB < bmax t /\ forallb (acc_ok capB) (snd (walk_ser_safe c t o capB)) = false.
-Proof.
-  exists {| ov := fun _ n => n; up_front := false; little := false; al := dyn_al; len_chk_storage := false; guarded := false; ptr_clamp := true |},
-         (TComp false [TPrim (PU 8 true)] None), (CStruct [CPrim (VInt 1)]), 0.
-  split; [reflexivity|]. split; [vm_compute; lia | vm_compute; reflexivity].
-Qed.
-
-(* the length checks compare against the DSDL capacity: with a user-reduced storage capacity a count between the two passes the
-   check and indexes past the array (F-C-OVR-CAP) *)
-Theorem des_in_bounds_override_refuted :
-  exists c t prior buf capB, length buf = 8 * capB /\ wf_ty t = true /\
-    fst (walk_des_safe c t prior buf) <> Err EBadLen /\ forallb (acc_ok capB) (snd (walk_des_safe c t prior buf)) = false.
-Proof.
-  exists {| ov := fun _ _ => 2; up_front := false; little := false; al := dyn_al; len_chk_storage := false; guarded := false; ptr_clamp := true |},
-         (TComp false [TVar (TPrim (PU 7 true)) 8] None),
-         (CStruct [CVar 0 [CPrim (VInt 0); CPrim (VInt 0)]]), (bits_of_bytes [5; 1; 2; 3; 4; 5; 0]%N), 7.
-  split; [reflexivity|]. split; [reflexivity|]. split; [vm_compute; discriminate | vm_compute; reflexivity].
-Qed.
-
-Theorem ser_in_bounds_override_refuted :
-  exists c t o capB, bmax t <= 8 * capB /\ wf_ty t = true /\
-    fst (walk_ser_safe c t o capB) <> Err EBadLen /\ forallb (acc_ok capB) (snd (walk_ser_safe c t o capB)) = false.
-Proof.
-  exists {| ov := fun _ _ => 2; up_front := false; little := false; al := dyn_al; len_chk_storage := false; guarded := false; ptr_clamp := true |},
-         (TComp false [TVar (TPrim (PU 7 true)) 8] None),
-         (CStruct [CVar 5 [CPrim (VInt 0); CPrim (VInt 0)]]), 8.
-  split; [vm_compute; lia|]. split; [reflexivity|]. split; [vm_compute; discriminate | vm_compute; reflexivity].
 Qed.
 
 (* =====================================================  serialization: bounds  ===================================================== *)
@@ -447,7 +318,7 @@ Qed.
 
 Lemma bulk_prim c e w : bulk c e = Some w -> w = fmax e /\ align e = 1.
 Proof.
-  unfold bulk. destruct e as [p| | |]; try discriminate. destruct p; try discriminate;
+  unfold bulk. destruct (negb (bulk_on c)); [discriminate|]. destruct e as [p| | |]; try discriminate. destruct p; try discriminate;
     try (destruct (zero_cost c _); [|discriminate]); intros H; injection H as <-; split; reflexivity.
 Qed.
 
@@ -596,6 +467,16 @@ Section SerBounds.
   Qed.
 End SerBounds.
 
+(* the rendering with the up-front test compiled in (always the case without the override option): in bounds for EVERY buffer size -
+   too small a buffer is refused before anything is touched, any other passes the test the invariant starts from *)
+Theorem ser_in_bounds_checked c t o capB : up_front c = true -> cap_sound c -> wf_ty t = true -> align t = 8 ->
+  log_all (acc_ok capB) (walk_ser_safe c t o capB).
+Proof.
+  intros Hu Hc Hwf Ha. destruct (Nat.ltb_spec (8 * capB) (bmax t)) as [Hlt|Hge].
+  - rewrite (too_small_no_write c t o capB Hu Hlt). reflexivity.
+  - apply (ser_in_bounds c Hc t o capB Hwf Ha Hge).
+Qed.
+
 (* =====================================================  deserialization: the prior contents do not matter  ===================================================== *)
 Lemma fst_bindM {A B} (m : M A) (f : A -> M B) : fst (bindM m f) = bind (fst m) (fun a => fst (f a)).
 Proof. destruct m as [[a|e] l]; reflexivity. Qed.
@@ -699,20 +580,6 @@ Section ObsEq.
   Qed.
 
 End ObsEq.
-
-(* =====================================================  pointer formation  ===================================================== *)
-(* the pre-fix rendering (`&buffer[offset_bits / 8U]`, fixed in 9be3c74) once implicit zero extension has moved the cursor past
-   the end: struct { uint64 big; In inner } decoded from 2 bytes forms &buffer[8] (F-C-PTR-PAST-END); kept as documentation *)
-Definition old_ptr_cfg : cfg :=
-  {| ov := fun _ n => n; up_front := true; little := false; al := dyn_al; len_chk_storage := false; guarded := false; ptr_clamp := false |}.
-Theorem des_ptr_in_bounds_refuted :
-  exists t prior buf capB, wf_ty t = true /\ length buf = 8 * capB /\
-    forallb (ptr_ok capB) (snd (walk_des_safe old_ptr_cfg t prior buf)) = false.
-Proof.
-  exists (TComp false [TPrim (PU 64 true); TComp false [TPrim (PU 8 true); TPrim (PU 8 true)] None] None), dflt,
-         (bits_of_bytes [1; 2]%N), 2.
-  split; [reflexivity|]. split; [reflexivity | vm_compute; reflexivity].
-Qed.
 
 (* =====================================================  totality: only documented errors  ===================================================== *)
 (* the walkers are total functions (structural recursion on the type and on the element count, no fuel): they return Ok or Err;
